@@ -10,6 +10,7 @@ Both remove the worktree afterwards.  Results are printed as JSON on the last li
 """
 import json, os, re, shutil, subprocess, sys, tempfile
 
+V = os.path.dirname(os.path.dirname(os.path.abspath(__file__)))
 ENV = dict(os.environ, GOFLAGS="-mod=mod", GOPROXY="off", GOSUMDB="off", GOTOOLCHAIN="local")
 
 
@@ -118,7 +119,7 @@ def run(src, props):
         tier = os.environ.get("TIER", "quick")
         for p in props:
             env = dict(os.environ, VERIF_REPO=wt, VERIF_NO_EVIDENCE="1", VERIF_FINDINGS_DIR=d + "/findings")
-            rc, out = sh(["./check", p, "--tier", tier], cwd="/verif", env=env, timeout=7200)
+            rc, out = sh(["./check", p, "--tier", tier], cwd=V, env=env, timeout=7200)
             line = [l for l in out.splitlines() if l.startswith(("VIOLATION", "OK ", "INCONCLUSIVE"))]
             note = ""
             m = re.search(r"\[C\d+/[^\]]+\] (.*)", out)
